@@ -69,7 +69,7 @@ def apply_special(name, text):
         old = "            result[i] = va[i].axis(); "
         if old not in text:
             raise KeyError("pattern for " + name)
-        return text.replace(old, "            static IMATH_NAMESPACE::Vec3<T> scratch;\n            scratch = va[i].axis();\n            result[i] = scratch;", 1)
+        return text.replace(old, "            { static IMATH_NAMESPACE::Vec3<T> scratch; scratch = va[i].axis(); result[i] = scratch; }", 1)
     raise KeyError(name)
 
 
